@@ -110,8 +110,14 @@ def judge_kernel(ctx, kernel, args, res, exc, origin):
         ctx.violation('kernel_raised', f'{kernel} raised {type(exc).__name__}: {exc}', case,
                       kernel=kernel)
         return
+    data = args[DATA_OPERAND[kernel]]
+    if ops.is_binned(data) and (not ops.is_binned(res) or res.dims != data.dims
+                                or not np.array_equal(ops.bin_sizes(res), ops.bin_sizes(data))):
+        ctx.violation('bin_layout', f'{kernel}: the result does not have the bins of its event operand '
+                      f'(sizes {ops.bin_sizes(data).tolist()[:6]} -> '
+                      f'{ops.bin_sizes(res).tolist()[:6] if ops.is_binned(res) else "dense"})', case, kernel=kernel)
+        return
     try:
-        data = args[DATA_OPERAND[kernel]]
         cls32 = ops.elem_dtype(data) == sc.DType.float32
         # mixed precision: a single-precision geometry operand limits the attainable
         # accuracy to single precision although the result class follows the data operand
@@ -224,6 +230,7 @@ def gen_case(rng, ctx, kernel=None):
     """One direct kernel call: dict(kernel, kwargs, signature, trivial)."""
     kernel = kernel or list(OPERANDS)[rng.integers(0, len(OPERANDS))]
     names = OPERANDS[kernel]
+    slice_of_binned = None
     shape_cls = SHAPES[rng.integers(0, len(SHAPES))]
     npix, nt = int(rng.integers(1, 7)), int(rng.integers(1, 40))
     data_name = names[0]
@@ -303,6 +310,10 @@ def gen_case(rng, ctx, kernel=None):
                 s = None
             else:
                 s = _draw_si(rng, n_el)
+            if s is not None and not is_data and n_el > 1 and rng.random() < 0.2:
+                # a compact detector: per-pixel values that agree to 1e-9..1e-6 relative but are not equal
+                s = s[0] * (1 + 10.0 ** rng.uniform(-9, -6) * rng.uniform(0, 1, size=n_el))
+                ctx.hit('nearly uniform per-pixel geometry')
             if s is None:
                 v = rng.integers(1, 2**26, size=n_el).astype(float)
             else:
@@ -321,8 +332,18 @@ def gen_case(rng, ctx, kernel=None):
             elif dt == 'float32':
                 ev = ev.astype(np.float32)
             var = ops.make_binned(ev, sizes, ['pixel'], (npix,), unit, dtype=dt)
+            if npix >= 3 and rng.random() < 0.3:
+                # a slice of a larger binned variable: begin/end no longer span the event buffer
+                lo_ = int(rng.integers(0, npix - 1))
+                hi_ = int(rng.integers(lo_ + 1, npix + 1))
+                var = var['pixel', lo_:hi_]
+                slice_of_binned = (lo_, hi_)
+                ctx.hit('binned operand is a slice of a larger one')
         else:
             var = _mk(v.reshape(shape) if shape else v, dims, unit, dt)
+        if (not is_data and slice_of_binned is not None and isinstance(var, sc.Variable) and 'pixel' in var.dims
+                and var.sizes['pixel'] != kw[data_name].sizes['pixel']):
+            var = var['pixel', slice_of_binned[0]:slice_of_binned[1]].copy()
         kw[n] = var
         units.append(unit)
         dtypes.append(dt)
@@ -466,7 +487,8 @@ def requirements(tier):
     ev.update({'route.Q*d=2pi': 20, 'route.lambda->E->lambda': 20})
     return {'events': ev,
             'forced': ['two_theta<1e-9', 'two_theta within 1e-12 of pi', 'two_theta == pi',
-                       'integer geometry operand']}
+                       'integer geometry operand', 'binned operand is a slice of a larger one',
+                       'nearly uniform per-pixel geometry']}
 
 
 def run(shard, ctx):
